@@ -6,8 +6,10 @@
      values/layout/heap/heap_type.rs   FrozenHeapRef = Arc<FrozenFrozenHeap{arena, refs}>; OwnedHeap.refs;
                                        FrozenHeap.refs; Heap::add_reference; FrozenHeap::add_reference
                                        (both: `if !refs.contains(h) { refs.insert(h.dupe()) }`);
-                                       FrozenHeap::into_ref_impl; OwnedFrozen::{add_to_heap, unchecked_new};
-                                       OwnedFrozenRef::{add_to_heap, add_to_frozen_heap}; OwnedFrozenReconstructor
+                                       FrozenHeap::{new, into_ref, into_ref_named, into_ref_impl} (with its
+                                       "empty heap" shortcut); OwnedFrozen::{add_to_heap, unchecked_new, build};
+                                       OwnedFrozenRef::{add_to_heap, add_to_frozen_heap};
+                                       OwnedFrozenReconstructor::{reconstruct, edge, frozen_edge}
      values/layout/heap/owned_frozen.rs OwnedFrozen::{map, maybe_map, clone}
      environment/modules.rs            Module::with_temp_heap, load_symbol, import_public_symbols, freeze_impl,
                                        FrozenModule::{own_value, get_owned, from_globals}
@@ -21,7 +23,15 @@
    FrozenFrozenHeap.refs) and `h_mrefs` (OwnedHeap.refs).  Values are abstracted to the heap they live in: a
    value of heap a that points at a value of heap b is the *value edge* a -> b (`h_edges`), a named value of a
    module / handle / globals is recorded by the heap it lives in (`r_vals`).  `h_rc` is the strong count of the
-   Arc (for a heap that is not sealed yet: 1, the owning Module / GlobalsBuilder). *)
+   Arc (for a heap that is not sealed yet: 1, the owning Module / GlobalsBuilder / FrozenHeap).
+
+   A *carrier* is a frozen heap in which nothing is ever allocated (`FrozenHeap::new()` as used by
+   `OwnedFrozen::build(name, |heap| handle.as_ref().add_to_frozen_heap(heap))`, a hand-made
+   `FrozenHeap::new(); add_reference(..); into_ref()`, or `GlobalsBuilder::new()` holding only foreign values
+   under constant-string names): its arena is empty, it exists only for its reference list.  A heap with no
+   values but a non-empty `h_refs` is a legitimate holder: whatever holds it keeps everything it references
+   alive.  `into_ref_impl` seals an arena-empty heap to the shared `FrozenHeapRef::default()` (no Arc) ONLY when
+   the reference list is empty too (`seal_carrier`). *)
 From Coq Require Import List Arith Bool.
 Import ListNotations.
 
@@ -38,7 +48,7 @@ Record heap := mkHeap {
   h_sealed : bool          (* into_ref_impl happened: immutable, shareable *)
 }.
 
-Inductive kind := KOpen | KFrozen | KHandle | KBuilder | KGlobals.
+Inductive kind := KOpen | KFrozen | KHandle | KBuilder | KGlobals | KCarrier.
 
 (* An object held by the embedder: open Module (+ its Evaluator), FrozenModule, OwnedFrozen handle,
    GlobalsBuilder, Globals. *)
@@ -55,14 +65,18 @@ Definition init : state := mkState [] [].
 (* The places where the code takes a heap reference.  `cfg s = false` removes that one (used only to show
    that each is necessary); the real mechanism is `all_sites`. *)
 Inductive site := SiteEvalGlobals | SiteLoad | SiteImport | SiteFreezeCarry | SiteGetOwned | SiteAddToHeap
-                | SiteAddToBuilder | SiteFromGlobals.
+                | SiteAddToBuilder | SiteFromGlobals
+                (* not an add_reference site but the other half of the same obligation: the `&& refs.is_empty()` conjunct
+                   of the empty-heap shortcut of FrozenHeap::into_ref_impl (false = shortcut on `arena.is_empty()` alone) *)
+                | SiteSealRefsCheck.
 Definition cfg := site -> bool.
 Definition all_sites : cfg := fun _ => true.
 Definition site_eqb (a b : site) : bool :=
   match a, b with
   | SiteEvalGlobals, SiteEvalGlobals | SiteLoad, SiteLoad | SiteImport, SiteImport
   | SiteFreezeCarry, SiteFreezeCarry | SiteGetOwned, SiteGetOwned | SiteAddToHeap, SiteAddToHeap
-  | SiteAddToBuilder, SiteAddToBuilder | SiteFromGlobals, SiteFromGlobals => true
+  | SiteAddToBuilder, SiteAddToBuilder | SiteFromGlobals, SiteFromGlobals
+  | SiteSealRefsCheck, SiteSealRefsCheck => true
   | _, _ => false
   end.
 Definition without (s : site) : cfg := fun x => negb (site_eqb s x).
@@ -175,12 +189,18 @@ Inductive op :=
 | OpAddToBuilder (k b : rid) (s : sym)                  (* b.set(s, handle.as_ref().add_to_frozen_heap(b.frozen_heap())) *)
 | OpBuild (b : rid)                                     (* GlobalsBuilder::build *)
 | OpFromGlobals (g : rid)                               (* FrozenModule::from_globals *)
+| OpNewCarrier                                          (* FrozenHeap::new() / GlobalsBuilder::new(): a heap that only carries references *)
+| OpAddToCarrier (k b : rid) (s : sym)                  (* handle.as_ref().add_to_frozen_heap(carrier) / reconstructor.frozen_edge(carrier) /
+                                                           carrier.add_reference(handle.owner()); the value is remembered under s *)
+| OpSealCarrier (b : rid) (g : bool)                    (* into_ref / into_ref_named / the tail of OwnedFrozen::build (g = false: the result is an
+                                                           OwnedFrozen over the last value added) / GlobalsBuilder::build (g = true: a Globals) *)
 | OpClone (r : rid)                                     (* FrozenModule::dupe / OwnedFrozen::clone / Globals::dupe *)
 | OpDrop (r : rid).                                     (* drop of any held object (open module: module + evaluator) *)
 
 Definition kind_eqb (a b : kind) : bool :=
   match a, b with
-  | KOpen, KOpen | KFrozen, KFrozen | KHandle, KHandle | KBuilder, KBuilder | KGlobals, KGlobals => true
+  | KOpen, KOpen | KFrozen, KFrozen | KHandle, KHandle | KBuilder, KBuilder | KGlobals, KGlobals
+  | KCarrier, KCarrier => true
   | _, _ => false
   end.
 
@@ -217,6 +237,25 @@ Definition set_kind (st : state) (r : rid) (k : kind) : state :=
   | Some ro => set_root st r (Some (mkRoot k (r_holds ro) (r_vals ro)))
   | None => st
   end.
+
+Definition is_nil {A} (l : list A) : bool := match l with [] => true | _ => false end.
+
+(* values of a carrier that would live in its own arena: there are none, the arena is empty *)
+Definition foreign_vals (a : hid) (vals : list (sym * hid)) : list (sym * hid) :=
+  filter (fun sv => negb (Nat.eqb (snd sv) a)) vals.
+
+(* heap_type.rs FrozenHeap::into_ref_impl on a heap `a` whose arena is empty (nothing was ever allocated in it),
+   owned by root b which becomes an object of kind k exposing vals:
+     if arena.is_empty() && refs.is_empty() { FrozenHeapRef::default() }    -- no Arc: the object holds no heap; the
+                                                                              FrozenHeap (arena, refs) dies here
+     else { FrozenHeapRef(Some(Arc::new(FrozenFrozenHeap { arena, refs, .. }))) }
+   (a FrozenHeap has no mutable half: h_mrefs is [] for it; the test reads both lists).
+   `c SiteSealRefsCheck = false` is the shortcut on `arena.is_empty()` alone. *)
+Definition seal_carrier (c : cfg) (st : state) (b : rid) (a : hid) (ha : heap) (k : kind) (vals : list (sym * hid)) : state :=
+  if (if c SiteSealRefsCheck then is_nil (h_refs ha ++ h_mrefs ha) else true) then
+    drop_refs (set_root st b (Some (mkRoot k [] (foreign_vals a vals)))) [a]
+  else
+    set_root (upd_heap st a f_mark_sealed) b (Some (mkRoot k [a] vals)).
 
 Definition step_cfg (c : cfg) (st : state) (o : op) : state :=
   match o with
@@ -329,6 +368,29 @@ Definition step_cfg (c : cfg) (st : state) (o : op) : state :=
           let st2 := if c SiteFromGlobals then add_ref st1 h gh else st1 in
           let st3 := edges_to st2 h (r_vals rg) in
           add_root (upd_heap st3 h f_mark_sealed) (mkRoot KFrozen [h] (r_vals rg))
+      | None => st
+      end
+  | OpNewCarrier =>
+      let (st1, h) := new_heap st in add_root st1 (mkRoot KCarrier [h] [])
+  | OpAddToCarrier k b s =>
+      match handle st k, root1 st b KCarrier with
+      | Some (rk, hv), Some (_, a) =>
+          (* heap_type.rs OwnedFrozenRef::add_to_frozen_heap / OwnedFrozenReconstructor::frozen_edge:
+             heap.add_reference(self.heap_ref) - the same site as for a GlobalsBuilder's heap; nothing is allocated in
+             the carrier, so there is no value edge out of it *)
+          let st1 := if c SiteAddToBuilder then fold_left (fun st x => add_ref st a x) (r_holds rk) st else st in
+          add_val st1 b s hv
+      | _, _ => st
+      end
+  | OpSealCarrier b g =>
+      match root1 st b KCarrier with
+      | Some (rb, a) =>
+          match get_heap st a with
+          | Some ha =>
+              if g then seal_carrier c st b a ha KGlobals (r_vals rb)       (* GlobalsBuilder::build -> Globals *)
+              else seal_carrier c st b a ha KHandle (firstn 1 (r_vals rb))  (* OwnedFrozen::build / unchecked_new(into_ref(), v) *)
+          | None => st
+          end
       | None => st
       end
   | OpClone r =>
